@@ -271,6 +271,15 @@ def c05_sweep(ctx, n):
         su = get(entries, obs, sumup=True, squeeze=False)
         if not _close(su[0], tot, float(np.max(np.abs(tot))) + 1e-300, 1e-7):
             ok = False
+        # sumup together with a reduction over pixels that is not linear: still the sum over the sources of what each source gives alone
+        if i % 3 == 0 and len(entries) > 1:
+            sens_ = magpy.Sensor(pixel=obs, position=nps.uniform(-0.2, 0.2, 3))
+            agg = rng.choice(["max", "min", "std", "ptp", "median"])
+            each = get(entries, sens_, pixel_agg=agg, squeeze=False)
+            tog = get(entries, sens_, pixel_agg=agg, sumup=True, squeeze=False)
+            if tog.shape[0] != 1 or not _close(tog[0], each.sum(axis=0), float(np.max(np.abs(each))) + 1e-300, 1e-7):
+                fails.append({"key": f"sumup-with-pixel-agg:{agg}", "desc": "getX(sources, sensor, sumup=True, pixel_agg=agg) is not the sum over the sources of getX(source, sensor, pixel_agg=agg)",
+                              "replay": {"agg": agg, "field": field, "entries": [repr(e) for e in entries]}})
         done += 1
         if not ok:
             fails.append({"key": "superposition", "desc": "collection / sumup result differs from the explicit sum of single-source calls",
@@ -372,6 +381,14 @@ def c06_sweep(ctx, n):
             from oracles.sources import lattice_points, mesh_row
             _, srcs, _, dims_, poss_, oris_ = mesh_row(rng, nps, rotate=True)
             inside_pts = [((o.apply(lattice_points(d, nps, 2)[1]) if o is not None else lattice_points(d, nps, 2)[1]) + q) for d, q, o in zip(dims_, poss_, oris_)]
+        if i % 7 == 5:
+            # meshes with DIFFERENT face counts in one call, one next to the observers and one three orders of magnitude farther away
+            from oracles.sources import box_mesh
+            import magpylib as _mp
+            tet = _mp.magnet.TriangularMesh.from_ConvexHull(points=nps.uniform(-0.5, 0.5, (5, 3)), polarization=nps.uniform(-1, 1, 3), position=(0.3, 0.2, 0.1))
+            far_box = box_mesh(nps.uniform(0.5, 1.5, 3), nps.uniform(-1, 1, 3), position=nps.uniform(3000, 30000, 3) * nps.choice([-1, 1], 3))
+            srcs = [tet, far_box] if rng.random() < 0.7 else [far_box, tet, box_mesh(nps.uniform(0.5, 1.5, 3), nps.uniform(-1, 1, 3), position=(-20000.0, 10.0, 5.0))]
+            inside_pts = []
         nk = rng.choice([1, 1, 2])
         shape = rng.choice([(3,), (2, 3), (1, 1, 3)])
         sens = [magpy.Sensor(position=far_points(nps, rng.choice([1, 2, 3]), lo=4, hi=8), pixel=nps.uniform(-0.3, 0.3, shape),
@@ -399,7 +416,8 @@ def c06_sweep(ctx, n):
                         k1 = se.copy(position=se._position[min(m, len(se._position) - 1)], orientation=se._orientation[min(m, len(se._position) - 1)])
                         single = get(s1, k1, squeeze=False)[0, 0, 0]
                         sc = field_scale(s)
-                        if not _close(out[l, m, k].reshape(-1), single.reshape(-1), sc, 1e-7):
+                        own = float(np.max(np.abs(single)))
+                        if not _close(out[l, m, k].reshape(-1), single.reshape(-1), min(sc, own + 1e-9 * sc) if np.isfinite(own) else sc, 1e-7):
                             ok, bad = False, (l, m, k)
         sq = get(srcs, sens, squeeze=True)
         if sq.shape != tuple(d for d in exp_shape if d != 1) or not np.array_equal(sq.reshape(-1), out.reshape(-1)):
